@@ -162,6 +162,10 @@ def calibrate(ctx, world):
 	run = Run(world, 0, 102, 0, 4, lambda k: 0, lambda k: 0)
 	err = run.go()
 	ok = err is None
+	if err and err != "hung" and (run.vt.calls == 0 or run.ev.waits == 0):
+		# not an attachment problem: the worker thread was started by the real start() and ended (or never ran)
+		ctx.violation("calibrate", {"trace": run.trace}, what = "clock generator does not tick: " + err)
+		return None
 	if run.vt.calls == 0 or run.ev.waits == 0:
 		# the generator does not read the harness clock / wait on the harness event: nothing can be decided
 		raise common.HarnessError("virtual clock could not be attached to clck_gen (time source or breaker event changed)")
